@@ -51,6 +51,7 @@ REPO = os.environ.get("VERIF_REPO", "/repo")
 VERIF = os.path.dirname(os.path.dirname(os.path.dirname(os.path.abspath(__file__))))
 JAR = os.path.join(REPO, "pyxform", "validators", "odk_validate", "bin", "ODK_Validate.jar")
 SENTINEL = "<sentinel>pre-existing output, not an XForm</sentinel>\n"
+LONG_SENTINEL = SENTINEL + "<!-- " + "stale tail of a longer file written here before " * 4000 + "-->\n"  # ~200 KB: longer than any XForm of the catalogue
 
 # ----------------------------------------------------------------------------- forms
 def forms():
@@ -330,6 +331,8 @@ def run_script(ctx, sc, base, FORMS, seed):
     V = lambda key, what, **extra: ctx.viol(key, what, {"script": sc, **extra})
     try:
         dirs = {k: os.path.join(d, k) for k in ("in", "out", "tmp", "cwd", "bin", "nobin")}
+        if sc["id"] % 3 == 1:
+            dirs["tmp"] = os.path.join(d, "tmp dir of Jane's")  # blanks and a quote in the temp path (user profiles, shared drives)
         for p in dirs.values():
             os.makedirs(p)
         form: Form = FORMS[sc["form"]]
@@ -418,7 +421,11 @@ def run_script(ctx, sc, base, FORMS, seed):
             spec.update(mode="cli", argv=argv)
             if sc["pre"] and sc["fp"] != "outdir_missing":
                 with open(outpath, "w") as fh:
-                    fh.write(SENTINEL)
+                    fh.write(LONG_SENTINEL if sc["id"] % 2 else SENTINEL)
+                if sc["id"] % 4 == 1 and sc["form"].startswith("valid_ext"):
+                    # a longer itemsets.csv from an earlier conversion to the same folder
+                    with open(os.path.join(os.path.dirname(outpath), "itemsets.csv"), "w") as fh:
+                        fh.write("list_name,name,label,grp\n" + "old,stale,row,x\n" * 3000)
         specp = os.path.join(d, "spec.json")
         json.dump(spec, open(specp, "w"))
         before = {k: listing(dirs[k]) for k in ("in", "out", "tmp", "cwd")}
@@ -562,7 +569,7 @@ def run_script(ctx, sc, base, FORMS, seed):
                     V(f"output:extra-files:{cls}:{mk}", f"{tag}: unexpected files {sorted(extra)[:4]}")
             else:
                 ctx.ctr("no_output_asserted")
-                if got is not None and got != SENTINEL:
+                if got is not None and got not in (SENTINEL, LONG_SENTINEL):
                     V(f"output:written-on-failure:{cls}:{mk}", f"{tag}: an XForm ({len(got)} chars) is at the output path although the run failed (outcome {okind})")
                 if plain_removes and got is not None:
                     V(f"output:not-removed:{cls}:{mk}", f"{tag}: plain mode must remove the output file when the validator rejects; it still exists")
